@@ -266,8 +266,10 @@ func genMsc() *routerCase {
 		Difficulty: big.NewInt(2), Number: big.NewInt(1), GasLimit: g0.GasLimit, Time: g0.Time + 3, Extra: posaExtra(nil)}
 	signInto(h0.Extra, clique.SealHash(&h0), v0)
 	return &routerCase{name: "msc", router: utils.MSC_ROUTER, ccmc: []byte{1, 2, 3},
-		extra: mustJSON(msc.ExtraInfo{ChainID: big.NewInt(77), Period: 3, Epoch: epoch}),
-		g1:    mustJSON(g1), g2: mustJSON(g2), hdr: [][]byte{mustJSON(h)},
+		extra:  mustJSON(msc.ExtraInfo{ChainID: big.NewInt(77), Period: 3, Epoch: epoch}),
+		extraX: mustJSON(msc.ExtraInfo{ChainID: big.NewInt(77), Period: 3, Epoch: 3 * epoch}), // 300: divides neither 200 nor 500, divides 0
+		extraY: mustJSON(msc.ExtraInfo{ChainID: big.NewInt(78), Period: 5, Epoch: epoch / 2}), // 50: divides every installed height
+		g1:     mustJSON(g1), g2: mustJSON(g2), hdr: [][]byte{mustJSON(h)},
 		hdrNote: "child of the epoch header G1 with a real clique seal of G1's single signer",
 		g0:      mustJSON(g0), g0Note: "Number 0 (0 % Epoch == 0)", hdr0: [][]byte{mustJSON(h0)}, hdr0Note: "block 1 with a clique seal of G0's signer",
 		gzNote: "none: the handler rejects an empty signer list; G0 is the boundary genesis"}
